@@ -8,7 +8,7 @@ explores every order the Tor-side reference model admits) -- and the starting sn
 from vlib import prelude
 from vlib.api import cond, assume, reached, R
 from vlib import api, fakes
-from vlib.ref_tor import TorModel, CONSENSUS, RA, RB
+from vlib.ref_tor import TorModel, CONSENSUS, RA, RB, NC, NS
 
 prelude.install()
 from txtorcon.torstate import TorState  # noqa: E402
@@ -22,7 +22,7 @@ ASSUMPTIONS = [
     'a two-relay consensus is installed through the real _update_network_status; a third relay is absent from it',
     '"latest target": host:port of the first NEW event, target_addr of the latest REMAP',
 ]
-BOUNDS = {'quick': {'circuits': 2, 'streams': 2, 'events': '4 from the empty state, 2 after each of 5 snapshots', 'alphabet': 32},
+BOUNDS = {'quick': {'circuits': 2, 'streams': 2, 'events': '4 from the empty state, 2 after each of 5 snapshots', 'alphabet': '34 (incl. EXTENDED on an already BUILT circuit)'},
           'thorough': {'events': '5 from the empty state, 4 after each snapshot'}}
 OUTSIDE = ['more than 2 circuits / 2 streams', 'exceptions raised by user listeners', 'NEWRESOLVE / SENTRESOLVE streams']
 
@@ -175,11 +175,11 @@ def run_history(prefix, events, wire=False):
 
 # snapshots, as event prefixes of the model (0..11 circuit events, 12.. stream events)
 def _c(cid, ev):
-    return (cid - 1) * 7 + ev
+    return (cid - 1) * NC + ev
 
 
 def _s(sid, ev):
-    return 14 + (sid - 1) * 9 + ev
+    return 2 * NC + (sid - 1) * NS + ev
 
 
 SNAPSHOTS = [
@@ -190,7 +190,7 @@ SNAPSHOTS = [
     [_c(1, 0), _c(1, 1), _c(1, 3), _c(2, 0), _c(2, 1), _c(2, 2), _c(2, 3), _s(1, 0), _s(1, 1), _s(2, 0), _s(2, 2)],   # two of each, attached
     [_c(1, 0), _c(1, 1), _c(1, 3), _s(1, 0), _s(1, 1), _s(1, 5)],           # detached stream
 ]
-_E = 32
+_E = 34
 
 
 @cond(quick=dict(parts=[{'e1': a} for a in range(_E)], budget=100))
